@@ -1046,7 +1046,7 @@ class Compiler:
       return self.lift(self.sc.globals[name])
     if fr.globs is not None and name in fr.globs:
       return self.lift_global(name, fr.globs[name])
-    if name in ("len", "isinstance", "str", "super", "list", "reversed", "range", "id", "print", "int", "bool", "type"):
+    if name in ("len", "isinstance", "str", "super", "list", "reversed", "range", "id", "print", "int", "bool", "type", "next"):
       return SI(getattr(self, "b_" + name), name)
     if name in ("True", "False", "None"):
       return self.lift({"True": True, "False": False, "None": None}[name])
@@ -1156,6 +1156,12 @@ class Compiler:
         raise TranslationError("%s.%s is not modelled" % (base.name, attr))
       return self.lift(base.attrs[attr])
     if isinstance(base, SClass):
+      bound = self.sc.class_attrs.get((base.cls, attr))
+      if bound is not None:
+        # a class attribute the scenario models as shared state (a counter, a cell, a lock)
+        if bound.cls == "attr":
+          return self.op(bound, "load", [], typ=getattr(bound, "typ", "int"))
+        return SO(bound)
       raw = getattr(base.cls, attr)
       return self.lift(raw)
     raise TranslationError("attribute %s of %r (%s)" % (attr, base, self.cur_src))
@@ -1222,6 +1228,12 @@ class Compiler:
       if isinstance(base, SO):
         self.sc.stored_attrs[(base.model.name, attr)] = val      # e.g. thread.name = uuid4(): remembered for a later read
       return
+    if isinstance(base, SClass):
+      bound = self.sc.class_attrs.get((base.cls, attr))
+      if bound is not None and bound.cls == "attr":
+        self.op(bound, "store", [val], want=0)
+        return
+      raise TranslationError("store to class attribute %s.%s, which the scenario does not model as shared state" % (base.cls.__name__, attr))
     raise TranslationError("attribute store on %r" % (base,))
 
   def container_model(self, v):
@@ -1547,6 +1559,15 @@ class Compiler:
       for k, v in self.sc.class_intrinsics:
         if k is key:
           return v(self, args, kwargs)
+      if key is not None and key in self.sc.constructible:
+        # an ordinary object made on the translated path: its __init__ is translated with a fresh composite object as self
+        n = self.sc.constructed.setdefault(key, [])
+        obj = PyObj(key, {}, "%s#%d" % (key.__name__, len(n)))
+        n.append(obj)
+        c, raw = self.find_method(key, "__init__")
+        if raw is not None and isinstance(raw, types.FunctionType):
+          self.call_function(SF(fn=raw, self_val=SP(obj), defcls=c), args, kwargs)
+        return SP(obj)
       raise TranslationError("construction of %r is not modelled" % (f.cls,))
     if isinstance(f, SP):
       c, raw = self.find_method(f.obj.cls, "__call__")
@@ -1620,6 +1641,12 @@ class Compiler:
     raise TranslationError("method %s of model %s" % (name, cls))
 
   # ---- builtins ----------------------------------------------------------------------------------------------------
+  def b_next(self, comp, args, kwargs):
+    v = args[0]
+    if isinstance(v, SO) and v.model.cls == "counter" and len(args) == 1:
+      return self.op(v.model, "take", [])
+    raise TranslationError("next() of %r" % (v,))
+
   def b_len(self, comp, args, kwargs):
     v = args[0]
     model = self.container_model(v)
